@@ -2,7 +2,7 @@
     ([any_src]), the branch that keeps the cached value, and the preparation of a run
     (clear_sources + ghost bookkeeping). *)
 From Coq Require Import List ZArith Bool Arith Lia.
-From LV Require Import Reactive.Graph Reactive.GraphLemmas Reactive.GraphInvariant
+From LV Require Import Reactive.Graph Reactive.GraphLemmas Reactive.GraphReplay Reactive.GraphInvariant
                        Reactive.GraphMarkProofs Reactive.GraphMarkOrigin Reactive.GraphQueueProofs
                        Reactive.GraphPullBase Reactive.GraphPullSteps
                        Reactive.GraphPullDefs Reactive.GraphPullEval.
@@ -111,7 +111,7 @@ Proof.
         split; [apply (L1_ext s s' i (Hrl i) (Hsr i)); auto|].
         unfold GraphInvariant.needs_cur, GraphInvariant.needs_clean, GraphInvariant.will_run in *.
         rewrite Hd in *. cbn [uncached_ok needs_cur_n needs_clean_n will_run_n] in *.
-        rewrite Hca. split; [intros Hc; congruence|]. split; [|split].
+        rewrite Hca, Hrl. split; [split; [intros Hc; congruence|apply R2]|]. split; [|split].
         -- intros _. apply (Lcur_ext p s s' i (Hrl i)); [intros x v _; apply Hcur|]. apply R3; auto.
         -- intros _ x v Hx Hmx. rewrite Hrl in Hx. apply Hclean. eapply Hsrc; eauto.
         -- intros [_ Hds]. rewrite Hst, Nat.eqb_refl in Hds. discriminate.
@@ -319,8 +319,9 @@ Proof.
     { unfold GraphInvariant.effb. rewrite Hd. auto. } congruence.
 Qed.
 
-Lemma memo_finish stk i cm c v se :
+Lemma memo_finish stk i cm bd c v se :
   Inv (i :: stk) i se -> L1 se i ->
+  decl_of p i = DMemo cm bd -> replay_body p i bd (rlog (getn se i)) = Some v ->
   memob i = true -> ~ In i stk ->
   (forall k, In k stk -> ~ In i (tracked_of (rlog (getn se k)))) ->
   (forall x, In x (subs (getn se i)) -> memob x = true -> st (getn se x) <> Clean) ->
@@ -335,10 +336,9 @@ Lemma memo_finish stk i cm c v se :
   (changed_of cm (cache (getn se i)) v = true ->
      forall k, In i (tracked_of (rlog (getn s' k))) -> since (getn s' k) <> []).
 Proof.
-  intros I HL1 Hm Hni Hnl Hroots Hobs Hpend. cbv zeta.
+  intros I HL1 Hdi Hrep Hm Hni Hnl Hroots Hobs Hpend. cbv zeta.
   assert (W : WF se) by apply I.
   assert (Hi : i < nlen se) by (eapply memob_range; eauto).
-  destruct (memob_decl p i Hm) as (cmi & ei & Hdi).
   set (sM := updn i (fun n => set_st (set_cache n (Some v)) Clean) (emit (EvEnd i v) se)).
   assert (HMo : forall k, k <> i -> getn sM k = getn se k).
   { intros k Hk. unfold sM. rewrite getn_updn_other by auto. apply getn_emit. }
@@ -541,7 +541,9 @@ Proof.
         split; [apply (L1_ext se s' i (Frl i) (Fsr i)); exact HL1|].
         unfold GraphInvariant.needs_cur, GraphInvariant.needs_clean, GraphInvariant.will_run.
         rewrite Hdi. cbn [uncached_ok needs_cur_n needs_clean_n will_run_n].
-        rewrite Fca, Nat.eqb_refl. split; [discriminate|]. split; [|split].
+        rewrite Fca, Nat.eqb_refl, Frl. split; [split; [discriminate|]|].
+        { intros v0 Hv0. inversion Hv0; subst. exact Hrep. }
+        split; [|split].
         -- intros _ x w Hx. rewrite Frl in Hx. rewrite Fcurk by (eapply Hsrc_lt; eauto). eapply Hfr_cur; eauto.
         -- intros _ x w Hx Hmx. rewrite Frl in Hx. apply Fclean; auto. eapply Hfr_clean; eauto.
         -- intros [_ Hd]. congruence.
@@ -549,6 +551,7 @@ Proof.
         split; [apply (L1_ext se s' k (Frl k) (Fsr k)); exact R1|].
         split.
         { unfold uncached_ok in *. destruct (decl_of p k); auto. rewrite (Fcak k Hki), Frl.
+          destruct R2 as [R2 R2'']. split; auto.
           intros Hc. destruct (R2 Hc) as [Hd Hr]. split; auto. apply st_le_dirty. rewrite <- Hd. apply Fle; auto. }
         split; [|split].
         -- intros Hn x w Hx. rewrite Frl in Hx.
